@@ -63,6 +63,72 @@ struct Fixture {
     verify_json: Box<dyn Fn(&Value) -> Verdict + Send + Sync>,
     /// verdict after a postcard round trip of the object deserialised from the JSON tree
     verify_postcard: Box<dyn Fn(&Value) -> Verdict + Send + Sync>,
+    /// in-memory alterations of proof fields that serialization does not carry
+    /// (`stark_common.lookups`): (proof label, alteration, verdict in memory, verdict after a
+    /// postcard round trip, verdict after a JSON round trip)
+    inmem: Vec<(String, String, Verdict, Verdict, Verdict)>,
+}
+
+macro_rules! verdict_of {
+    ($r:expr) => {
+        match quiet_catch(|| $r) {
+            Ok(Ok(())) => Verdict::Accept,
+            Ok(Err(e)) => Verdict::Reject(e),
+            Err(p) => Verdict::Panic(p),
+        }
+    };
+}
+
+/// Alterations of the non-serialized `stark_common.lookups` of an in-memory proof: every swap
+/// of two tables' lookups, and dropping the last entry. Each is judged in memory and after
+/// both round trips (which must give the same verdict).
+fn inmem_lookup_alterations<SC>(
+    label: &str,
+    p: &mut BatchStarkProof<SC>,
+    verify: &dyn Fn(&BatchStarkProof<SC>) -> Result<(), String>,
+    out: &mut Vec<(String, String, Verdict, Verdict, Verdict)>,
+) where
+    SC: p3_uni_stark::StarkGenericConfig,
+    BatchStarkProof<SC>: serde::Serialize + serde::de::DeserializeOwned,
+{
+    let judge = |p: &BatchStarkProof<SC>| -> (Verdict, Verdict, Verdict) {
+        let mem = verdict_of!(verify(p));
+        let pc = match postcard::to_allocvec(p).ok().and_then(|b| postcard::from_bytes::<BatchStarkProof<SC>>(&b).ok()) {
+            Some(q) => verdict_of!(verify(&q)),
+            None => Verdict::NotAProof,
+        };
+        let js = match serde_json::to_value(p).ok().and_then(|v| serde_json::from_value::<BatchStarkProof<SC>>(v).ok()) {
+            Some(q) => verdict_of!(verify(&q)),
+            None => Verdict::NotAProof,
+        };
+        (mem, pc, js)
+    };
+    let n = p.stark_common.lookups.len();
+    let (m, a, b) = judge(p);
+    out.push((label.to_string(), "unaltered".into(), m, a, b));
+    for i in 0..n {
+        for j in (i + 1)..n {
+            p.stark_common.lookups.swap(i, j);
+            let (m, a, b) = judge(p);
+            out.push((label.to_string(), format!("swap lookups[{i}]<->[{j}]"), m, a, b));
+            p.stark_common.lookups.swap(i, j);
+        }
+    }
+    if n > 0 {
+        let last = p.stark_common.lookups.pop().unwrap();
+        let (m, a, b) = judge(p);
+        out.push((label.to_string(), "drop last lookups entry".into(), m, a, b));
+        p.stark_common.lookups.push(last);
+        // duplicate the first table's lookups over every other table (same length)
+        let saved: Vec<_> = p.stark_common.lookups.drain(..).collect();
+        // cannot clone `Lookups` generically: rotate instead
+        let mut rot = saved;
+        rot.rotate_left(1);
+        p.stark_common.lookups = rot;
+        let (m, a, b) = judge(p);
+        out.push((label.to_string(), "rotate lookups by one".into(), m, a, b));
+        p.stark_common.lookups.rotate_right(1);
+    }
 }
 
 fn tamper_cell(table: usize, row: usize, col: usize) {
@@ -88,20 +154,10 @@ fn clear_tamper() {
     p3_circuit_prover::verif_hooks::set_matrix_tamper(None);
 }
 
-macro_rules! verdict_of {
-    ($r:expr) => {
-        match quiet_catch(|| $r) {
-            Ok(Ok(())) => Verdict::Accept,
-            Ok(Err(e)) => Verdict::Reject(e),
-            Err(p) => Verdict::Panic(p),
-        }
-    };
-}
-
 /// BabyBear, element field = base (D=1) or the degree-4 extension.
 fn bb_fixture<const EXT: bool>() -> Fixture {
     type Proof = BatchStarkProof<BabyBearConfig>;
-    fn build_and_prove<EF, const D: usize>(tampers: &[(usize, usize, usize)]) -> Vec<(String, Value, bool)>
+    fn build_and_prove<EF, const D: usize>(tampers: &[(usize, usize, usize)], inmem: &mut Vec<(String, String, Verdict, Verdict, Verdict)>) -> Vec<(String, Value, bool)>
     where
         EF: p3_field::Field + p3_field::ExtensionField<BB> + BasedVectorSpace<BB> + p3_circuit_prover::field_params::ExtractBinomialW<BB> + core::hash::Hash,
     {
@@ -149,24 +205,28 @@ fn bb_fixture<const EXT: bool>() -> Fixture {
             }
             let proof = quiet_catch(|| prover.prove_all_tables(&traces, &cpd));
             clear_tamper();
-            if let Ok(Ok(p)) = proof {
+            if let Ok(Ok(mut p)) = proof {
                 let label = match t {
                     None => "honest".to_string(),
                     Some((tb, row, col)) => format!("invalid(table{tb},row{row},col{col})"),
                 };
-                out.push((label, serde_json::to_value(&p).unwrap(), t.is_some()));
+                out.push((label.clone(), serde_json::to_value(&p).unwrap(), t.is_some()));
+                let v = |q: &Proof| -> Result<(), String> { BatchStarkProver::new(vpe1::accept::fast_baby_bear()).verify_all_tables::<EF>(q).map_err(|e| format!("{e:?}")) };
+                inmem_lookup_alterations::<BabyBearConfig>(&label, &mut p, &v, inmem);
             }
         }
         out
     }
     let tampers = [(2usize, 1usize, 3usize), (2, 2, 0), (1, 0, 0), (0, 1, 0)];
-    let proofs = if EXT { build_and_prove::<BB4, 4>(&tampers) } else { build_and_prove::<BB, 1>(&tampers) };
+    let mut inmem = vec![];
+    let proofs = if EXT { build_and_prove::<BB4, 4>(&tampers, &mut inmem) } else { build_and_prove::<BB, 1>(&tampers, &mut inmem) };
     let verify = move |p: &Proof| -> Result<(), String> {
         let prover = BatchStarkProver::new(vpe1::accept::fast_baby_bear());
         if EXT { prover.verify_all_tables::<BB4>(p).map_err(|e| format!("{e:?}")) } else { prover.verify_all_tables::<BB>(p).map_err(|e| format!("{e:?}")) }
     };
     Fixture {
         name: if EXT { "babybear-d4-alu" } else { "babybear-d1-alu" },
+        inmem,
         proofs,
         verify_json: Box::new(move |v| match serde_json::from_value::<Proof>(v.clone()) {
             Err(_) => Verdict::NotAProof,
@@ -245,6 +305,7 @@ fn kb_npo_fixture() -> Fixture {
         prover
     };
     let mut proofs = vec![];
+    let mut inmem = vec![];
     for t in [None, Some((2usize, 1usize, 3usize)), Some((3, 0, 5)), Some((4, 0, 1)), Some((1, 0, 0))] {
         let mut rn = circuit.runner();
         rn.set_public_inputs(&[KB4::from_u64(9)]).unwrap();
@@ -263,17 +324,20 @@ fn kb_npo_fixture() -> Fixture {
         }
         let proof = quiet_catch(|| prover.prove_all_tables(&traces, &cpd));
         clear_tamper();
-        if let Ok(Ok(p)) = proof {
+        if let Ok(Ok(mut p)) = proof {
             let label = match t {
                 None => "honest".to_string(),
                 Some((tb, row, col)) => format!("invalid(table{tb},row{row},col{col})"),
             };
-            proofs.push((label, serde_json::to_value(&p).unwrap(), t.is_some()));
+            proofs.push((label.clone(), serde_json::to_value(&p).unwrap(), t.is_some()));
+            let v = |q: &Proof| -> Result<(), String> { mk_prover().verify_all_tables::<KB4>(q).map_err(|e| format!("{e:?}")) };
+            inmem_lookup_alterations::<KoalaBearConfig>(&label, &mut p, &v, &mut inmem);
         }
     }
     let verify = move |p: &Proof| -> Result<(), String> { mk_prover().verify_all_tables::<KB4>(p).map_err(|e| format!("{e:?}")) };
     Fixture {
         name: "koalabear-d4-poseidon2-recompose",
+        inmem,
         proofs,
         verify_json: Box::new(move |v| match serde_json::from_value::<Proof>(v.clone()) {
             Err(_) => Verdict::NotAProof,
@@ -431,6 +495,20 @@ fn main() {
         let r = vpcore::load_replay(path);
         let fx = fixtures.iter().find(|f| f.name == r["fixture"].as_str().unwrap_or("")).unwrap_or_else(|| vpcore::machinery_error("unknown fixture in replay"));
         let label = r["proof"].as_str().unwrap_or("honest");
+        if let Some(alt) = r["inmem"].as_str() {
+            // in-memory alteration of non-serialized fields: the fixture already evaluated it
+            for (l, a, mem, pc, js) in &fx.inmem {
+                if l == label && a == alt {
+                    println!("replay {} {} in-memory [{}] -> memory {:?} / postcard {:?} / json {:?}", fx.name, l, a, mem, pc, js);
+                    let t = |v: &Verdict| v.tag().split(':').next().unwrap().to_string();
+                    if t(mem) != t(pc) || t(mem) != t(js) {
+                        report.violation("replay:serde_roundtrip:inmem", "verdict changes across a serde round trip", r.clone());
+                    }
+                }
+            }
+            let cov = json!({"evaluations":3,"distinct_nontrivial":2,"rule":"replay","samples":[r]});
+            finish(&ctx, cov, vec![], &report);
+        }
         let (_, tree, _) = fx.proofs.iter().find(|p| p.0 == label).unwrap_or_else(|| vpcore::machinery_error("unknown proof label"));
         let alts: Vec<Alt> = r["alterations"].as_array().cloned().unwrap_or_default().iter().map(|a| Alt { path: a["path"].as_str().unwrap().to_string(), class: String::new(), value: a["value"].clone(), kind: "set" }).collect();
         let refs: Vec<&Alt> = alts.iter().collect();
@@ -453,6 +531,37 @@ fn main() {
     let harmless_m = std::sync::Mutex::new(&mut harmless);
 
     for fx in &fixtures {
+        // in-memory alterations of non-serialized fields: verdict must survive both round trips,
+        // and an invalid-trace proof must never verify
+        let accepted_unaltered: std::collections::HashSet<&String> = fx
+            .inmem
+            .iter()
+            .filter(|(l, alt, mem, _, _)| l != "honest" && alt == "unaltered" && *mem == Verdict::Accept)
+            .map(|x| &x.0)
+            .collect();
+        for (label, alt, mem, pc, js) in &fx.inmem {
+            if accepted_unaltered.contains(label) {
+                // the tampered cell is one the AIR does not constrain (C04 matter): not an invalid trace here
+                continue;
+            }
+            evals.fetch_add(3, Ordering::Relaxed);
+            let t = |v: &Verdict| v.tag().split(':').next().unwrap().to_string();
+            histo.add(&format!("inmem/{}/{}", if label == "honest" { "honest" } else { "invalid_trace" }, t(mem)));
+            let replay = json!({"fixture": fx.name, "proof": label, "alterations": [], "inmem": alt});
+            if t(mem) != t(pc) || t(mem) != t(js) {
+                report.violation(
+                    format!("serde_roundtrip:inmem:{}", fx.name),
+                    format!("{} {label} [{alt}]: verdict in memory {mem:?}, after postcard {pc:?}, after json {js:?}", fx.name),
+                    replay.clone(),
+                );
+            }
+            if label != "honest" && (*mem == Verdict::Accept || *pc == Verdict::Accept || *js == Verdict::Accept) && alt != "unaltered" {
+                report.violation(format!("invalid_trace_accepted:{}:inmem-lookups", fx.name), format!("{label} [{alt}] verifies"), replay);
+            }
+            if matches!(mem, Verdict::Reject(_)) {
+                nontrivial.fetch_add(1, Ordering::Relaxed);
+            }
+        }
         // sanity of the proof set under correct metadata
         let mut set_info = vec![];
         let mut usable: Vec<&(String, Value, bool)> = vec![];
